@@ -862,6 +862,10 @@ pub fn run(ctx: &Ctx) -> Report {
         }
     }
 
+    // ---- backends that go on after a refused writer call (shared workload, see props/recover.rs):
+    //      whatever the calls that reported success wrote must be one conformant response
+    rep.merge(super::recover::group(ctx, "C03", super::recover::Clause::Shape, None, 1500, 30_000));
+
     rep.merge(super::mega::run(ctx, "C03", 1500, 60000));
     if ctx.strict() {
         for k in ["sentinel_pings_matched", "responses_compared_with_prediction", "more_results_set", "more_results_clear", "units_ok", "units_err", "units_resultset", "shape_contradictions_refused"] {
